@@ -86,3 +86,15 @@ pub fn util_fill_buffer_bytes<R: io::BufRead>(
 pub fn normalize_lines(s: &str, line_break: crate::line_writer::LineBreak) -> String {
     crate::normalize_lines::normalize_lines(s, line_break).into_owned()
 }
+
+/// `crypto::aead::StreamEncryptor::new` (crate-private constructor)
+pub fn aead_stream_encryptor<R: io::Read>(
+    sym_alg: crate::crypto::sym::SymmetricKeyAlgorithm,
+    aead: crate::crypto::aead::AeadAlgorithm,
+    chunk_size: crate::crypto::aead::ChunkSize,
+    session_key: &[u8],
+    salt: &[u8; 32],
+    source: R,
+) -> Result<crate::crypto::aead::StreamEncryptor<R>, crate::crypto::aead::Error> {
+    crate::crypto::aead::StreamEncryptor::new(sym_alg, aead, chunk_size, session_key, salt, source)
+}
